@@ -1077,6 +1077,10 @@ def population_riders(L, o, kd):
             # the value was wrapped, does not double backslashes)
             name = "balance[backslash-quote]"
         return cls, sql, [(name, f"{e}: {sql[:160]}")]
+    # an alias rendered inside a predicate-like clause (of the statement or of a nested SELECT) is never grammatical
+    jx = sqllex.predicate_juxtapositions(sql, iq, bs)
+    if jx:
+        bad.append((f"alias-in-predicate[{jx[0][0]}]".replace(" ", "_"), f"...{jx[0][1]}...  in {sql[:160]}"))
     if kd == "qb":
         kind = population_kind(o)
         table = order_table(cls, kind) if kind else None
@@ -1085,21 +1089,51 @@ def population_riders(L, o, kd):
             miss = check_order_at(names, table)
             if miss is not None:
                 # named by where it happens (SET>SELECT: a second SELECT keyword at the top level right after SET)
-                bad.append((f"clause-order[{miss[1]}>{miss[0]}]",
+                bad.append((f"clause-order[{miss[1]}>{miss[0]}]".replace(" ", "_"),
                             f"{miss[0]} out of place or repeated after {miss[1]} in {' > '.join(names)}: {sql[:160]}"))
     return cls, sql, bad
+
+
+def _noparens(sql):
+    return sql.replace("(", "").replace(")", "")
 
 
 def population_program(rng):
     knobs = gen.default_knobs(rng, PROP)
     knobs.update({"nops": rng.randint(2, 6), "p_stmt": 1.0, "focus": rng.choice(["qb", "qb", "setop", "ddl"]),
                   "p_new": 0.5, "p_leaf": 0.0, "depth": rng.choice([2, 3, 4]), "select_subqueries_only": True})
+    if rng.random() < 0.6:
+        # one dialect and many by-reference arguments: SELECTs of the heap embedded in parents of their own class
+        knobs["qcls"] = [rng.choice(QCLS)]
+        knobs["p_ref"] = 0.7
     env = lang.Env(share_tables=knobs["share_tables"])
     g = gen.Gen(rng, knobs, env)
     from . import engine
     for _ in range(knobs["nops"]):
         i = g.next_op()
         env.heap.append(engine.exec_op(env, g.program[i]))
+    # parents that embed a SELECT of the heap in the positions that are rendered with aliases switched on
+    sels = [i for i, v in enumerate(env.heap) if engine.is_object_slot(v) and obs.kind_of(g.L, v) == "qb"
+            and population_kind(v) == "select" and lib.state(v).get("_selects")]
+    for _ in range(rng.randint(0, 2) if sels else 0):
+        i = sels[rng.randrange(len(sels))]
+        S = {"t": "var", "i": i}
+        C = {"t": "cls", "name": type(env.heap[i]).QUERY_CLS.__name__}
+        how = rng.choice(["select", "from", "join", "in"])
+        if how == "select":
+            x = {"t": "meth", "x": {"t": "meth", "x": C, "m": "from_", "a": [TB]}, "m": "select", "a": [F(TB, "x"), S]}
+        elif how == "from":
+            x = {"t": "meth", "x": {"t": "meth", "x": C, "m": "from_", "a": [{"t": "meth", "x": S, "m": "as_", "a": ["sj"]}]},
+                 "m": "select", "a": ["*"]}
+        elif how == "join":
+            sub = {"t": "meth", "x": S, "m": "as_", "a": ["sj"]}
+            x = {"t": "meth", "x": {"t": "join", "x": {"t": "meth", "x": C, "m": "from_", "a": [TB]}, "item": sub, "how": None,
+                                    "fin": "cross", "a": []}, "m": "select", "a": [F(TB, "x")]}
+        else:
+            x = {"t": "meth", "x": {"t": "meth", "x": {"t": "meth", "x": C, "m": "from_", "a": [TB]}, "m": "select", "a": [F(TB, "x")]},
+                 "m": "where", "a": [{"t": "meth", "x": F(TB, "y"), "m": "isin", "a": [S]}]}
+        k = g.emit({"op": "new", "x": x})
+        env.heap.append(engine.exec_op(env, g.program[k]))
     return g.program, env, knobs
 
 
@@ -1123,7 +1157,8 @@ def population_run(seed, run, rng):
         res["stats"]["population_statements"] += 1
         trail.append(sql)
         for name, detail in bad:
-            sig = f"{PROP}:rider:{name}:population" if name.startswith("clause-order") else f"{PROP}:rider:{name}:{cls}:population"
+            sig = f"{PROP}:rider:{name}:population" if name.startswith(("clause-order", "alias-in-predicate")) \
+                else f"{PROP}:rider:{name}:{cls}:population"
             if any(x["signature"] == sig for x in res["violations"]):
                 continue
             keep = sorted(lang.cone(program, i))
@@ -1131,6 +1166,47 @@ def population_run(seed, run, rng):
             res["violations"].append({"signature": sig, "payload": {
                 "property": PROP, "seed": seed, "run": run, "signature": sig, "kind": "population", "program": p2,
                 "victim": mp[i], "share_tables": knobs["share_tables"], "rider": name, "detail": detail}})
+    # context independence of a sub-query's text: a SELECT of the heap that another statement takes as an ARGUMENT
+    # (FROM / JOIN source, scalar or IN sub-query, CTE, operand) must appear in that statement verbatim, i.e. exactly as
+    # it renders on its own under the same dialect context - whatever clause of the parent it sits in
+    for j, op in enumerate(program):
+        P = env.heap[j]
+        if op["op"] not in ("call", "join", "new") or not engine.is_object_slot(P) or obs.kind_of(L, P) != "qb":
+            continue
+        args = set(lang.spec_vars([op.get(k) for k in ("x", "a", "kw", "item") if k in op]))
+        args.discard(op.get("r"))
+        for i in sorted(args):
+            S = env.heap[i]
+            if not engine.is_object_slot(S) or obs.kind_of(L, S) != "qb" or population_kind(S) != "select" \
+                    or not lib.state(S).get("_selects"):
+                continue
+            cls = type(P).QUERY_CLS.__name__ if hasattr(type(P), "QUERY_CLS") else "Query"
+            if cls not in L.CTX or type(S) is not type(P):
+                continue  # a parent builder of another dialect adjusts the context it hands down (groupby_alias, ...)
+            try:
+                outer = P.get_sql(L.CTX[cls])
+                inner = S.get_sql(L.CTX[cls].copy(with_alias=False, subquery=False))
+            except Exception:  # noqa: BLE001
+                continue
+            if not outer or not inner:
+                continue
+            # brackets are not compared: under NOT (...) the library parenthesises nested compound criteria once more
+            # (ctx.subcriterion reaches the sub-query), which is well-formed and means the same
+            inner_n, outer_n = _noparens(inner), _noparens(outer)
+            if inner_n[:min(24, len(inner_n))] not in outer_n:
+                continue  # the argument is not part of the parent's text (dropped, or used as something else)
+            res["stats"]["subquery_embeddings_compared"] += 1
+            if inner_n not in outer_n:
+                sig = f"{PROP}:rider:subquery-context:population"
+                if any(x["signature"] == sig for x in res["violations"]):
+                    continue
+                keep = sorted(lang.cone(program, j))
+                p2, mp = shrink.slice_program(program, keep)
+                res["violations"].append({"signature": sig, "payload": {
+                    "property": PROP, "seed": seed, "run": run, "signature": sig, "kind": "population-context",
+                    "program": p2, "victim": mp[j], "sub": mp[i], "share_tables": knobs["share_tables"],
+                    "rider": "subquery-context",
+                    "detail": f"on its own: {inner[:200]}  |  inside the parent: {outer[:300]}"}})
     res["shape"] = runner.digest([op.get("op") + ":" + str(op.get("m", "")) for op in program])
     res["digest"] = res["xdigest"] = runner.digest([program, trail])
     return res, program
@@ -1145,6 +1221,22 @@ def replay_population(payload):
         return False, "not reproduced (victim did not build)"
     _, _, bad = population_riders(L, v, obs.kind_of(L, v))
     if any(name == payload["rider"] for name, _ in bad):
+        return True, payload["signature"]
+    return False, "not reproduced"
+
+
+def replay_population_context(payload):
+    from . import engine
+    L = lib.get()
+    env = engine.execute(payload["program"], share_tables=payload.get("share_tables", True))
+    P, S = env.heap[payload["victim"]], env.heap[payload["sub"]]
+    if not (engine.is_object_slot(P) and engine.is_object_slot(S)):
+        return False, "not reproduced (objects did not build)"
+    cls = type(P).QUERY_CLS.__name__
+    outer = P.get_sql(L.CTX[cls])
+    inner = S.get_sql(L.CTX[cls].copy(with_alias=False, subquery=False))
+    inner, outer = _noparens(inner), _noparens(outer)
+    if inner[:min(24, len(inner))] in outer and inner not in outer:
         return True, payload["signature"]
     return False, "not reproduced"
 
@@ -1236,6 +1328,8 @@ def replay(payload):
     kind = payload.get("kind")
     if kind == "population":
         return replay_population(payload)
+    if kind == "population-context":
+        return replay_population_context(payload)
     can = canonical(prog)
     if kind == "noncommuting":
         ref = outcome(prog, can, okw)
